@@ -3,18 +3,7 @@
 import json, os
 ROOT = os.path.dirname(os.path.dirname(os.path.abspath(__file__)))
 
-CLAIMED = {
-    # id: (category, level text, design_ref, level_note, technique)
-    "C01": ("proof",
-            "Coq theorems (props/C01.v) over all finite MDPs of any size: a result accepted by the boolean certificate checker c01_check "
-            "has values within eps/(1-gamma) of the unique optimal fixed point, 0 at absorbing states, a policy supported on near-optimal "
-            "available actions with bounded loss, and the stated initial value; the checker and mirror models of both value-iteration loops "
-            "are evaluated by vm_compute on the tables msdm returns for generated MDPs on every run.",
-            "DESIGN.md §5 C01",
-            "discounted case proved; undiscounted case: see level note in DESIGN.md (bracketing theorems); trusted: Coq kernel+VM, Reals axioms "
-            "(sig_forall_dec, sig_not_dec, functional_extensionality_dep), harness generators/float->rational conversion, index order reported by msdm",
-            "Coq proof (Bellman contraction/residual/greedy-loss) + proved-sound certificate checker run on implementation outputs + mirror-model diff"),
-}
+CLAIMED = {k: tuple(v) for k, v in json.load(open(os.path.join(ROOT, "harness", "claims.json"))).items()}
 
 NOT_YET = "check not built yet in this round (design in DESIGN.md §5; no claim made until the Coq model, theorems and correspondence run)"
 
